@@ -37,15 +37,23 @@ CANDS = {
     "r/sub/k.py": "file",
     "r/subx.py": "file",
     "r/sub/k2.py": "file",
+    "r/lib": "dir",
+    "r/lib/util.py": "file",
 }
 LINES = {
     "r/m.py": ["import logging", "import logging.handlers", "import os.path", "import rx.util", "import handlers", "import r.handlers", "from r.sub import k"],
-    "r/sub/k.py": ["import logging.handlers", "import r.m", "import r.subx", "from . import k2"],
+    "r/sub/k.py": ["import logging.handlers", "import r.m", "import r.subx", "from . import k2", "from .. import m", "from ..lib.util import helper", "import r"],
     "r/handlers.py": ["import logging"],
 }
 LINES_SMALL = {
     "r/m.py": ["import logging.handlers", "import handlers", "import r.handlers", "import rx.util", "from r.sub import k"],
-    "r/sub/k.py": ["import logging.handlers", "import r.m", "import r.subx", "from . import k2"],
+    # relative imports that climb above module_path r/sub (their targets are external for that scan) and an import
+    # of module_path's own ancestor package
+    "r/sub/k.py": ["import logging.handlers", "import r.m", "import r.subx", "from . import k2", "from .. import m", "from ..lib.util import helper", "import r"],
+}
+LINES_SMALL_ROOT = {
+    "r/m.py": LINES_SMALL["r/m.py"],
+    "r/sub/k.py": ["import logging.handlers", "import r.m", "import r.subx", "from . import k2", "import r"],
 }
 FIXED = {p: True for p in CANDS if "/" in p}
 
@@ -108,11 +116,13 @@ def judge(view, mp_rel: str, cfg, got, default):
     _, n0, imp0, hier0 = default
 
     def is_int(x):
-        return x in internal_nodes
+        # modules at or below module_path; the ancestors of module_path are nodes of every configuration but lie
+        # outside module_path: an import of one of them is an import of something external
+        return x in scanned
 
     # internal part identical to the default configuration
-    if {x for x in n if is_int(x)} != {x for x in n0 if is_int(x)} or not internal_nodes <= n:
-        return ("MISMATCH", f"internal modules {sorted(internal_nodes)}", f"internal modules {sorted(x for x in n if is_int(x))}")
+    if {x for x in n if x in internal_nodes} != {x for x in n0 if x in internal_nodes} or not internal_nodes <= n:
+        return ("MISMATCH", f"internal modules {sorted(internal_nodes)}", f"internal modules {sorted(x for x in n if x in internal_nodes)}")
     ii = {(u, v) for u, v in imp if is_int(u) and is_int(v)}
     ii0 = {(u, v) for u, v in imp0 if is_int(u) and is_int(v)}
     if ii != ii0:
@@ -135,13 +145,32 @@ def judge(view, mp_rel: str, cfg, got, default):
         return ("MISMATCH", f"internal imports {sorted(want_ii)}", f"internal imports {sorted(ii - anc_pairs)}")
     # externals
     named = []  # (importer, external module named by a present line)
+    optional_ext, optional_eimp = set(), set()
     for p in ex:
         if CANDS[p] != "file" or not (p == mp_rel or p.startswith(mp_rel + "/")):
             continue
         for ln in txt.get(p, []):
             node = ast.parse(ln).body[0]
             if isinstance(node, ast.ImportFrom) and node.level > 0:
-                continue  # relative imports name internal modules
+                # relative form, resolved against the importing file's package.  'from .P import n' names P.n when
+                # that is a scanned module and P otherwise; a target outside the scanned sub-tree is external here
+                parts = dotted(p).split(".")
+                pkg = ".".join(parts[: len(parts) - node.level])
+                base = f"{pkg}.{node.module}" if node.module else pkg
+                full = f"{base}.{node.names[0].name}"
+                if full in scanned:
+                    continue
+                if node.module is None:
+                    # 'from .. import m' with <package>.m not scanned: by the naming rule this names the package (an
+                    # ancestor of the importer); the scan cannot know whether <package>.m is a module outside the
+                    # scanned sub-tree.  Both readings are accepted (optional module / optional import).
+                    if not excl and not pat_match(kind, pats, full) and not any(pat_match(kind, pats, a) for a in ancestors(full)):
+                        optional_ext.add(full)
+                        optional_eimp.add((dotted(p), full))
+                    continue
+                if base not in scanned:
+                    named.append((dotted(p), base))
+                continue
             names = [a.name for a in node.names] if isinstance(node, ast.Import) else [node.module]
             for nm in names:
                 if nm not in scanned and not (isinstance(node, ast.ImportFrom) and f"{node.module}.{node.names[0].name}" in scanned):
@@ -155,11 +184,20 @@ def judge(view, mp_rel: str, cfg, got, default):
             want_ext |= {e, *ancestors(e)}
         want_ext -= internal_nodes
         want_eimp = set(kept)
-    got_ext = {x for x in n if not is_int(x)}
-    if got_ext != want_ext:
+    got_ext = {x for x in n if x not in internal_nodes}
+    if not (want_ext <= got_ext <= want_ext | optional_ext):
         return ("MISMATCH", f"external modules {sorted(want_ext)}", f"external modules {sorted(got_ext)}")
+    # hierarchy follows dotted names everywhere: the sub modules of a module are the modules whose name extends it
+    for u, v in hier:
+        if v.rsplit(".", 1)[0] != u:
+            return ("MISMATCH", "hierarchy edges only from a package to <package>.<component>", f"hierarchy edge {u} -> {v}")
+    above = set(ancestors(mp))
+    if excl:
+        to_above = {(u, v) for u, v in imp if v in above}
+        if to_above:
+            return ("MISMATCH", "externals excluded: no import to a module outside module_path", f"imports {sorted(to_above)}")
     got_eimp = {(u, v) for u, v in imp if not is_int(v)}
-    if got_eimp != want_eimp:
+    if not (want_eimp <= got_eimp <= want_eimp | optional_eimp):
         return ("MISMATCH", f"imports of externals {sorted(want_eimp)}", f"imports of externals {sorted(got_eimp)}")
     for x in got_ext:
         if "." in x and (x.rsplit(".", 1)[0], x) not in hier:
@@ -182,17 +220,17 @@ def harness(inst, model):
 
 
 def make_model(inst) -> FSModel:
-    return FSModel(CANDS, LINES if inst["lines"] == "full" else LINES_SMALL, fixed=FIXED)
+    return FSModel(CANDS, {"full": LINES, "small": LINES_SMALL, "small-root": LINES_SMALL_ROOT}[inst["lines"]], fixed=FIXED)
 
 
 def instances(tier: str) -> list[dict]:
     out = []
     for cfg in CONFIGS:
-        out.append({"mp": "r", "cfg": [cfg[0], cfg[1], list(cfg[2])], "lines": "full" if tier == "thorough" else "small", "cap": CAPS[tier]})
+        out.append({"mp": "r", "cfg": [cfg[0], cfg[1], list(cfg[2])], "lines": "full" if tier == "thorough" else "small-root", "cap": CAPS[tier]})
         out.append({"mp": "r/sub", "cfg": [cfg[0], cfg[1], list(cfg[2])], "lines": "small", "cap": CAPS[tier]})
     if tier == "quick":
         # the full line set on the configurations that matter most
-        for cfg in (CONFIGS[1], CONFIGS[4], CONFIGS[5]):
+        for cfg in (CONFIGS[1], CONFIGS[4]):
             out.append({"mp": "r", "cfg": [cfg[0], cfg[1], list(cfg[2])], "lines": "full", "cap": CAPS[tier]})
     return out
 
